@@ -1,5 +1,5 @@
 (* Props/C17.v — cw1: the admin set changes only by admins while mutable; freezing is permanent. *)
-Require Import CwPlus.Params CwPlus.Base CwPlus.AMap CwPlus.Cw1Model CwPlus.Cw1Lemmas.
+Require Import CwPlus.Params CwPlus.Base CwPlus.AMap CwPlus.Cw1Model CwPlus.Cw1Lemmas CwPlus.Cw1Check CwPlus.Cw1CheckLemmas.
 Open Scope N_scope.
 
 (* the admin list or the frozen flag changes only in a Freeze / UpdateAdmins call by a current admin
@@ -28,6 +28,13 @@ Proof. exact grants_admin_only. Qed.
 Theorem c17_inv_reachable : forall m st cs, instantiate m = Ok st -> Inv (run st cs).
 Proof. exact reachable_inv. Qed.
 
+(* the step contract S_C17 (all 3 clauses) never fires on the model's own transition, nor on a refused call *)
+Theorem c17_contract_never_fires_on_model : forall st blk sender o, Cw1Lemmas.Inv st ->
+  match step st blk sender o with
+  | Ok (st', _) => s_c17 st st' blk sender o true = 0
+  | _ => True
+  end /\ s_c17 st st blk sender o false = 0.
+Proof. exact s_c17_sound. Qed.
 Example c17_nonvacuous :
   exists st, instantiate (mkInit false [Some 1; Some 2] true) = Ok st /\
     let st1 := run st [(mkBlock 1 1, 2, Freeze, true)] in
@@ -38,3 +45,4 @@ Print Assumptions c17_guard.
 Print Assumptions c17_frozen_forever.
 Print Assumptions c17_grants_admin_only.
 Print Assumptions c17_inv_reachable.
+Print Assumptions c17_contract_never_fires_on_model.
